@@ -67,6 +67,15 @@ def check_case(case, stats=None, known=None):
         viol.append({'kind': 'undeclared-error',
                      'detail': {k: e.get(k) for k in
                                 ('type', 'msg', 'frame', 'where', 'label')}})
+    if case.get('auto_resume') and not weak:
+        # resume variant of the known finding join-retrigger (see C04):
+        # classified through the compare-and-swap log; the verdict oracle
+        # does not apply, termination and error discipline still do
+        from mv.props.c10 import _retriggered
+        if res.snap and _retriggered(res.snap):
+            if stats:
+                stats.counters['known_shape_join_retrigger_seen'] += 1
+            weak = True
     if not viol and not weak:
         outk = sorted(prog['output']) if prog.get('output') else []
         v = enginerun.verdict(res, outk)
@@ -109,8 +118,19 @@ def shard_main(shard, nshards, seed, tier, opts):
     st.tags['scheduler_' + sched_type] += 0
     n = opts.get('examples', 60)
     max_tasks = opts.get('max_tasks', 8)
-    strat = common.engine_case_strategy(max_tasks=max_tasks,
+    feats = None
+    if shard % 8 in (5, 6):
+        # an eighth of the shards per scheduler implementation: definitions
+        # that pause themselves (`pause` command); the harness resumes
+        # whenever nothing else is pending; the reference model drops the
+        # pause entries (a pause only delays dispatch, the model explores
+        # all orders)
+        from mv.gen import workflows as G
+        feats = G.feats(pause_cmd=True)
+    strat = common.engine_case_strategy(max_tasks=max_tasks, feats=feats,
                                         max_devs=opts.get('max_devs', 6))
+    if feats is not None:
+        strat = strat.map(lambda c: dict(c, auto_resume=True))
 
     def run(case):
         case = dict(case)
